@@ -17,11 +17,16 @@ import hashlib
 import json
 import multiprocessing
 import os
+import signal
+import threading
 import sys
 import time
 import traceback
 
 VERIF = os.path.dirname(os.path.dirname(os.path.abspath(__file__)))
+# evidence/ and replays/ go here (the self-test redirects them so that runs against
+# mutated copies never overwrite the real evidence)
+OUT = os.environ.get("VERIF_OUT") or VERIF
 
 
 class HarnessError(Exception):
@@ -140,8 +145,29 @@ def _classify(mod, known, stats, case, res):
     return fresh
 
 
+class CaseTimeout(BaseException):
+    pass
+
+
+def _alarm(signum, frame):
+    raise CaseTimeout()
+
+
 def _run_one(mod, known, stats, case):
-    res = mod.run_case(case)
+    # watchdog: a single case that does not come back is a hang of the code under test
+    limit = float(getattr(mod, "CASE_TIMEOUT_S", 90))
+    use_alarm = threading.current_thread() is threading.main_thread()
+    if use_alarm:
+        old = signal.signal(signal.SIGALRM, _alarm)
+        signal.setitimer(signal.ITIMER_REAL, limit)
+    try:
+        res = mod.run_case(case)
+    except CaseTimeout:
+        res = CaseResult([Violation({"kind": "hang"}, f"case did not finish within {limit:.0f}s")], False, ["hang"])
+    finally:
+        if use_alarm:
+            signal.setitimer(signal.ITIMER_REAL, 0)
+            signal.signal(signal.SIGALRM, old)
     stats.record(case, res)
     fresh = _classify(mod, known, stats, case, res)
     if fresh:
@@ -301,7 +327,7 @@ def merge(shards):
 
 
 def write_evidence(mod, tier, seed, stats, wall_s, n_viol):
-    os.makedirs(os.path.join(VERIF, "evidence"), exist_ok=True)
+    os.makedirs(os.path.join(OUT, "evidence"), exist_ok=True)
     cov = {
         "evaluations": stats.evaluations,
         "distinct_nontrivial": len(stats.nontrivial),
@@ -336,7 +362,7 @@ def write_evidence(mod, tier, seed, stats, wall_s, n_viol):
         "wall_s": round(wall_s, 2),
         "violations": n_viol,
     }
-    path = os.path.join(VERIF, "evidence", f"{mod.ID}.json")
+    path = os.path.join(OUT, "evidence", f"{mod.ID}.json")
     tmp = path + ".tmp"
     with open(tmp, "w") as f:
         json.dump(ev, f, indent=1, sort_keys=True, default=str)
@@ -346,7 +372,7 @@ def write_evidence(mod, tier, seed, stats, wall_s, n_viol):
 
 
 def save_replay(mod, tier, seed, rec, tag):
-    d = os.path.join(VERIF, "replays", mod.ID)
+    d = os.path.join(OUT, "replays", mod.ID)
     os.makedirs(d, exist_ok=True)
     path = os.path.join(d, f"{digest(rec['case'])[:12]}-{tag}.json")
     with open(path, "w") as f:
